@@ -8,8 +8,16 @@ pub struct Sink {
     pub count: u64,
     pub bytes: u64,
     pub max_len: usize,
+    /// exact repeats the generator dropped instead of emitting
+    pub dropped: u64,
     stats: bool,
     pub ops: Vec<(String, u64)>,
+    /// outcome-kind counters predicted by the generator's own reference semantics (stats only)
+    pub notes: [Vec<(&'static str, u64)>; 2],
+    /// 0 = bounded-exhaustive scope, 1 = random stream
+    pub phase: usize,
+    pub exhaustive_lines: u64,
+    pub want_notes: bool,
     /// Self-check mode: every line goes through this instead of stdout.
     pub checker: Option<Box<dyn FnMut(&str, u64)>>,
     pub on_finish: Option<Box<dyn FnMut(&Sink)>>,
@@ -29,8 +37,13 @@ impl Sink {
             count: 0,
             bytes: 0,
             max_len: 0,
+            dropped: 0,
             stats,
             ops: Vec::new(),
+            notes: [Vec::new(), Vec::new()],
+            phase: 0,
+            exhaustive_lines: 0,
+            want_notes: stats,
             checker: None,
             on_finish: None,
             label: label.to_string(),
@@ -43,6 +56,9 @@ impl Sink {
             self.finish_and_exit();
         }
         self.count += 1;
+        if self.phase == 0 {
+            self.exhaustive_lines += 1;
+        }
         self.bytes += line.len() as u64;
         if line.len() > self.max_len {
             self.max_len = line.len();
@@ -69,6 +85,19 @@ impl Sink {
         }
     }
 
+    /// Count an expected-outcome kind (only when stats are on).
+    #[inline]
+    pub fn note(&mut self, what: &'static str) {
+        if !self.want_notes {
+            return;
+        }
+        let notes = &mut self.notes[self.phase];
+        match notes.iter_mut().find(|(o, _)| *o == what) {
+            Some(e) => e.1 += 1,
+            None => notes.push((what, 1)),
+        }
+    }
+
     pub fn finish(&mut self) {
         if let Some(w) = self.w.as_mut() {
             let _ = w.flush();
@@ -78,13 +107,23 @@ impl Sink {
             ops.sort();
             let hist: Vec<String> = ops.iter().map(|(o, n)| format!("{}={}", o, n)).collect();
             let avg = if self.count == 0 { 0.0 } else { self.bytes as f64 / self.count as f64 };
+            let fmt = |ns: &Vec<(&'static str, u64)>| -> String {
+                let mut ns = ns.clone();
+                ns.sort();
+                let v: Vec<String> = ns.iter().map(|(o, n)| format!("{}={}", o, n)).collect();
+                v.join(" ")
+            };
             eprintln!(
-                "jpgen-stats {} lines={} avg_len={:.1} max_len={} ops: {}",
+                "jpgen-stats {} lines={} exhaustive_lines={} avg_len={:.1} max_len={} repeats_dropped={} ops: {} | expected(exhaustive): {} | expected(random): {}",
                 self.label,
                 self.count,
+                self.exhaustive_lines,
                 avg,
                 self.max_len,
-                hist.join(" ")
+                self.dropped,
+                hist.join(" "),
+                fmt(&self.notes[0]),
+                fmt(&self.notes[1])
             );
         }
         if let Some(mut f) = self.on_finish.take() {
